@@ -128,6 +128,8 @@ def main():
     items += [('group:' + a, a) for a, b in inputs.test_groups_pairs()]
     items += [('metal:' + s, s) for s in inputs.organometallics()]
     items += [('stereo:' + s, s) for s in inputs.ring_stereo_family()]
+    items += [('mixed:' + s, s) for s in ('S=C=S.C1CC1', 'NC(N)=S.C1CCCCC1', 'CC(C)=S.c1ccccc1', 'CN=C=S.C1CC1', 'P#N.C1CC1', 'C1CC1.S=C=S', 'C1CC1.[C]', 'C1CC1.C#[B]', 'CC(=O)[O-].[NH4+]', 'C1CC1.CC.O',
+                                            'c1ccccc1.C=S', 'C1CC1.CSC.S', 'O=C=O.C1CC1.[S]')]
     items += [('azolium:' + s, s) for s in ('Cc1cc[nH][nH+]1', 'Cc1[nH+]c(CC)[nH]c1', 'c1c[nH+]c[nH]1', 'Cc1c[nH]c[nH+]1', 'CCn1cc[n+](C)c1', 'Cc1[nH]cc[nH+]1', 'Cc1[nH+]cc[nH]1', 'CC1=CN2C=CNC2=C1',
                                               'CC(=O)C1=CN2C=CSC2=C1', 'C[n+]1ccn(C)c1C', 'Cc1c[nH+]c(C)[nH]1')]
     small = []
@@ -154,10 +156,25 @@ def main():
         r['flushed'] = observe(m, qs, heavy=False)
         r['copy'] = observe(c0, qs)
         r['copy_after'] = observe(m.copy(), qs, heavy=False)
+        # a transaction that edits, reads everything and then fails must leave nothing behind: evaluation after the rollback = first evaluation
+        c2 = c0.copy()
+        try:
+            with c2:
+                first = next(iter(c2))
+                c2.add_bond(first, c2.add_atom('C'), 1)
+                if len(c2) > 2:
+                    c2.delete_atom(list(c2)[1])
+                observe(c2, qs[:2], heavy=False)
+                raise KeyError('abort')
+        except Exception:
+            pass
+        r['after_failed_tx'] = observe(c2, qs, heavy=False)
         # same observables asked in the opposite order on a fresh copy (first-call order must not matter)
         c1 = c0.copy()
         rev = {}
-        for k_, f_ in (('smiles_atoms_order', lambda: c1.smiles_atoms_order), ('fmt_h', lambda: format(c1, 'h')), ('str', lambda: str(c1)), ('atoms_order', lambda: c1.atoms_order)):
+        for k_, f_ in (('sssr', lambda: c1.sssr), ('atoms_rings_sizes', lambda: c1.atoms_rings_sizes), ('connected_components', lambda: c1.connected_components),
+                       ('smiles_atoms_order', lambda: c1.smiles_atoms_order), ('fmt_h', lambda: format(c1, 'h')), ('str', lambda: str(c1)), ('atoms_order', lambda: c1.atoms_order),
+                       ('labels', lambda: [(n, a.implicit_hydrogens, a.hybridization, a.in_ring, sorted(a.ring_sizes), a.stereo) for n, a in c1.atoms()])):
             try:
                 rev[k_] = dg(norm(f_()))
             except Exception as e:
